@@ -34,6 +34,20 @@ def cases(tier):
         cfg = {'scenario': 'batch', 'n': n, 'x': x, 'members': members, 'verify_order': list(reversed(range(len(ks)))),
                'actions': ['VerifyOnly', 'RecoverAndVerify', 'RecoverOnly']}
         out.append({'cfg': cfg, 'kind': 'honest', 'name': 'honest k=%d n%d x%d reversed' % (len(ks), n, x)})
+    # honest batches on SHARED objects and with EQUAL members: one parameters object for every member (aggregates of different sizes, every order);
+    # the same member listed two and three times; members that differ only in their caller context
+    for perm in itertools.permutations([(4, 4, False), (1, 4, True), (2, 4, False)]):
+        cfg = {'scenario': 'batch', 'n': 4, 'x': 1, 'members': [dict(honest_member(i, kd), share_params=True) for i, kd in enumerate(perm)],
+               'actions': ['VerifyOnly', 'RecoverAndVerify', 'RecoverOnly']}
+        out.append({'cfg': cfg, 'kind': 'honest', 'name': 'honest k=3 on one parameters object, aggregates %s' % [kd[0] for kd in perm]})
+    for reps in (2, 3):
+        mem = {'m': 1, 'cap': 1, 'seeded': True, 'values': ['9'], 'sym_bits': False, 'name_idx': 0, 'label': 'member 0'}
+        members = [dict(mem)] + [dict(mem, rng_replay_of=0) for _ in range(reps - 1)]
+        cfg = {'scenario': 'batch', 'n': 8, 'x': 2, 'members': members, 'actions': ['VerifyOnly', 'RecoverAndVerify', 'RecoverOnly']}
+        out.append({'cfg': cfg, 'kind': 'honest', 'name': 'honest: the same triple listed %d times' % reps})
+        other = {'m': 2, 'cap': 2, 'seeded': False, 'values': ['3', '4'], 'sym_bits': False, 'name_idx': 1, 'label': 'member 1'}
+        cfg = {'scenario': 'batch', 'n': 8, 'x': 2, 'members': [dict(mem), dict(other)] + [dict(mem, rng_replay_of=0) for _ in range(reps - 1)], 'actions': ['VerifyOnly', 'RecoverAndVerify', 'RecoverOnly']}
+        out.append({'cfg': cfg, 'kind': 'honest', 'name': 'honest: the same triple listed %d times around another member' % reps})
     # (c) one invalid member at each position
     for k in (2, 3):
         for pos in range(k):
